@@ -103,24 +103,26 @@ structure JSt (α : Type) where
   broke : Bool
   left : α
 
-/-- inner loop of row `i`. `js` = effective `j_start` (after `if sc > j_start`), `ec` = `ec` of the
-previous row, `m` = `adj_max_dist`.  Produces cells `j+1 …` of the row. -/
-def prowFrom (g : Grid α) (m : α) (i js ec : Nat) : Nat → JSt α → List α → List α × JSt α
+/-- one iteration of the inner `for j` loop of row `i`: `d`/`u` are the diagonal/upper predecessor
+(`dtw[i0, j]`, `dtw[i0, j+1]`), `st.left` is `dtw[i1, j]`.  `js` = effective `j_start` (after
+`if sc > j_start`), `ec` = `ec` of the previous row, `m` = `adj_max_dist`. -/
+def pcell (g : Grid α) (m : α) (i js ec : Nat) (j : Nat) (st : JSt α) (d u : α) : α × JSt α :=
+  if j < js ∨ g.jEnd i ≤ j ∨ st.broke = true then
+    (top, { st with left := top })            -- outside the loop range / after `break`
+  else if ¬ g.cost i j ≤ g.maxStep then
+    (top, { st with left := top })            -- `continue`
+  else
+    let v := g.step i j d u st.left
+    if v ≤ m then (v, { st with found := true, ecNext := j+1, left := v })
+    else (v, { st with sc := if st.found = true ∨ i < g.psi1b then st.sc else j+1,
+                       broke := decide (ec ≤ j), left := v })
+
+/-- scan of a row with a carried state: `prev = [prev[j], prev[j+1], …]` -/
+def scanSt {σ : Type} (f : Nat → σ → α → α → α × σ) : Nat → σ → List α → List α × σ
   | j, st, d :: u :: rest =>
-      if j < js ∨ g.jEnd i ≤ j ∨ st.broke then
-        let (cells, st') := prowFrom g m i js ec (j+1) { st with left := top } (u :: rest)
-        (top :: cells, st')
-      else if ¬ g.cost i j ≤ g.maxStep then         -- `continue`
-        let (cells, st') := prowFrom g m i js ec (j+1) { st with left := top } (u :: rest)
-        (top :: cells, st')
-      else
-        let v := g.step i j d u st.left
-        let st1 : JSt α :=
-          if v ≤ m then { st with found := true, ecNext := j+1, left := v }
-          else { st with sc := if st.found then st.sc else j+1,
-                         broke := decide (ec ≤ j), left := v }
-        let (cells, st') := prowFrom g m i js ec (j+1) st1 (u :: rest)
-        (v :: cells, st')
+      let r := f j st d u
+      let rr := scanSt f (j+1) r.2 (u :: rest)
+      (r.1 :: rr.1, rr.2)
   | _, st, _ => ([], st)
 
 /-- state carried from row to row -/
@@ -132,13 +134,13 @@ structure PSt (α : Type) where
 def prow (g : Grid α) (m : α) (i : Nat) (sc ec : Nat) (prev : List α) : List α × Nat × Nat :=
   let js := max (g.jStart i) sc
   let first := g.borderCol (i+1)
-  let (cells, st) := prowFrom g m i js ec 0
+  let r := scanSt (pcell g m i js ec) 0
       { sc := sc, found := false, ecNext := i, broke := false, left := first } prev
-  (first :: cells, st.sc, st.ecNext)
+  (first :: r.1, r.2.sc, r.2.ecNext)
 
 /-- rows `0..n` of the pruned matrix together with the final `(sc, ec)` -/
 def matPAux (g : Grid α) (m : α) : Nat → List (List α) × Nat × Nat
-  | 0 => ([row0 g], 0, 0)
+  | 0 => ([row0 g], 0, g.psi2b)
   | n+1 =>
       match matPAux g m n with
       | (rows, sc, ec) =>
